@@ -5,7 +5,7 @@
    "PointInSide accepts only points of the triangle" — true for the repaired three-sign test
    (tri_in_side_in_bbox), false for the pinned two-sign test (tri_point_in_side_refuted).        *)
 From PF Require Export Trees.OctreeProofs.
-From Coq Require Import Lqa Lia.
+From Coq Require Import Lqa Lia Qfield.
 Open Scope Z_scope.
 
 (* ---------- points ---------- *)
@@ -108,3 +108,116 @@ Corollary tri_projection_far a b c p q :
   coplanar a b c p = true -> tri_in_side a b c p = true ->
   boxdist2 (tri_box a b c) q <= dist2 p q.
 Proof. intros. apply boxdist2_le_in, tri_in_side_in_bbox; assumption. Qed.
+
+Open Scope Q_scope.
+(* ---------- exact closest point of a segment: no hypothesis left ---------- *)
+Lemma inj_minus a b : inject_Z (a - b) == inject_Z a - inject_Z b.
+Proof. unfold Z.sub. rewrite inject_Z_plus, inject_Z_opp. reflexivity. Qed.
+
+Lemma qsq_nonneg x : 0 <= x * x.
+Proof. destruct (Qlt_le_dec x 0); nra. Qed.
+
+Lemma clamp_closest_q (v lo hi : Z) (c : Q) :
+  (lo <= hi)%Z -> zq lo <= c -> c <= zq hi -> qsq (zq (clampz v lo hi) - zq v) <= qsq (c - zq v).
+Proof.
+  intros W H1 H2. unfold clampz, qsq, zq in *.
+  destruct (Z_lt_le_dec v lo) as [L|L]; [|destruct (Z_lt_le_dec hi v) as [G|G]].
+  - rewrite (Z.max_r v lo), (Z.min_l lo hi) by lia. rewrite Zlt_Qlt in L. nra.
+  - rewrite (Z.max_l v lo), (Z.min_r v hi) by lia. rewrite Zlt_Qlt in G. nra.
+  - rewrite (Z.max_l v lo), (Z.min_l v hi) by lia. pose proof (qsq_nonneg (c - inject_Z v)).
+    assert (E : (inject_Z v - inject_Z v) * (inject_Z v - inject_Z v) == 0) by ring. rewrite E. assumption.
+Qed.
+
+Lemma seg_at_box (a b : Z) t : zq (Z.min a b) <= seg_at (zq a) (zq b) t /\ seg_at (zq a) (zq b) t <= zq (Z.max a b).
+Proof.
+  destruct (seg_at_between (zq a) (zq b) t) as [[H1 H2]|[H1 H2]];
+    unfold zq in *; destruct (Z_le_gt_dec a b) as [L|G].
+  - rewrite Z.min_l, Z.max_r by lia. split; assumption.
+  - assert (inject_Z b <= inject_Z a) by (rewrite <- Zle_Qle; lia).
+    rewrite Z.min_r, Z.max_l by lia. split; lra.
+  - assert (inject_Z a <= inject_Z b) by (rewrite <- Zle_Qle; lia).
+    rewrite Z.min_l, Z.max_r by lia. split; lra.
+  - rewrite Z.min_r, Z.max_l by lia. split; assumption.
+Qed.
+
+(* the exact closest point of a segment is at least as far from the query as the segment's box:
+   for every segment (also zero-length) and every query *)
+Theorem seg_closest_far a b p :
+  zq (boxdist2 (seg_box a b) p) <= qdist2 (seg_closest a b p) p.
+Proof.
+  unfold boxdist2, dist2, bclosest, seg_box, seg_closest, qdist2, bmin, bmax, pmin, pmax.
+  cbn [fst snd px py pz].
+  set (t := seg_param a b p).
+  destruct (seg_at_box (px a) (px b) t) as [X1 X2].
+  destruct (seg_at_box (py a) (py b) t) as [Y1 Y2].
+  destruct (seg_at_box (pz a) (pz b) t) as [Z1 Z2].
+  pose proof (clamp_closest_q (px p) _ _ _ (Z.le_trans _ _ _ (Z.le_min_l _ _) (Z.le_max_l _ _)) X1 X2) as Hx.
+  pose proof (clamp_closest_q (py p) _ _ _ (Z.le_trans _ _ _ (Z.le_min_l _ _) (Z.le_max_l _ _)) Y1 Y2) as Hy.
+  pose proof (clamp_closest_q (pz p) _ _ _ (Z.le_trans _ _ _ (Z.le_min_l _ _) (Z.le_max_l _ _)) Z1 Z2) as Hz.
+  unfold zq, sq, qsq in *. rewrite !inject_Z_plus, !inject_Z_mult.
+  rewrite !inj_minus.
+  assert (S : forall x y : Q, (x - y) * (x - y) == (y - x) * (y - x)) by (intros; ring).
+  rewrite (S (inject_Z (px p))), (S (inject_Z (py p))), (S (inject_Z (pz p))). lra.
+Qed.
+
+(* finitely many rational keys have a common positive integer scale *)
+Lemma common_scale (kq : nat -> Q) : forall n, exists (K : Z) (f : nat -> Z),
+  (0 < K)%Z /\ forall i, (i < n)%nat -> inject_Z (f i) == inject_Z K * kq i.
+Proof.
+  induction n as [|n (K & f & HK & Hf)].
+  - exists 1%Z, (fun _ => 0%Z). split; [lia|]. intros i Hi. lia.
+  - destruct (kq n) as [num den] eqn:E.
+    exists (Z.pos den * K)%Z, (fun i => if Nat.eqb i n then (num * K)%Z else (Z.pos den * f i)%Z).
+    split; [lia|]. intros i Hi. destruct (Nat.eqb i n) eqn:En.
+    + apply Nat.eqb_eq in En. subst i. rewrite E. unfold Qeq, Qmult, inject_Z. cbn [Qnum Qden].
+      rewrite Pos.mul_1_l. ring.
+    + apply Nat.eqb_neq in En. assert (Hi' : (i < n)%nat) by lia. specialize (Hf i Hi').
+      rewrite !inject_Z_mult, Hf. ring.
+Qed.
+
+(* ClosestPoint for elements whose exact squared distances kq are no smaller than their box distances:
+   there is an integer scale at which the search of the model runs, it answers, the returned index is
+   the element that produced the returned point, and its exact distance is minimal *)
+Theorem closest_eq_brute_exact_thm (P : Type) (cpt : nat -> P) (kq : nat -> Q) q depth boxes t :
+  Forall wf_box boxes ->
+  (forall i, (i < length boxes)%nat -> zq (boxdist2 (nth i boxes zero_pt_box) q) <= kq i) ->
+  new_octree depth boxes = Some t ->
+  exists (K : Z) (ekey : nat -> Z),
+    (0 < K)%Z /\ (forall i, (i < length boxes)%nat -> inject_Z (ekey i) == inject_Z K * kq i) /\
+    (exists r, closest P ekey cpt K q t = Some r) /\
+    forall i k p, closest P ekey cpt K q t = Some (i, k, p) ->
+      (i < length boxes)%nat /\ p = cpt i /\ forall j, (j < length boxes)%nat -> kq i <= kq j.
+Proof.
+  intros W H B. destruct (common_scale kq (length boxes)) as (K & ekey & HK & He).
+  exists K, ekey. split; [exact HK|]. split; [exact He|].
+  assert (KQ : 0 < inject_Z K) by (change 0 with (inject_Z 0); rewrite <- Zlt_Qlt; exact HK).
+  destruct (closest_eq_brute_thm P ekey cpt K q depth boxes t) as [S C]; try assumption; [lia| |].
+  - intros i Hi. rewrite Zle_Qle, inject_Z_mult, (He i Hi). specialize (H i Hi). unfold zq in H. nra.
+  - split; [exact S|]. intros i k p Hc. destruct (C i k p Hc) as (C1 & C2 & C3 & C4).
+    split; [exact C1|]. split; [exact C3|]. intros j Hj. specialize (C4 j Hj). subst k.
+    rewrite Zle_Qle, (He i C1), (He j Hj) in C4. nra.
+Qed.
+
+(* segments: no hypothesis on the elements is left *)
+Definition seg_of (segs : list (pt * pt)) (i : nat) : pt * pt := nth i segs ((0, 0, 0)%Z, (0, 0, 0)%Z).
+
+Theorem closest_eq_brute_segments_thm (segs : list (pt * pt)) q depth t :
+  let boxes := map (fun s => seg_box (fst s) (snd s)) segs in
+  let cpt := fun i => seg_closest (fst (seg_of segs i)) (snd (seg_of segs i)) q in
+  let kq := fun i => qdist2 (cpt i) q in
+  new_octree depth boxes = Some t ->
+  exists (K : Z) (ekey : nat -> Z),
+    (0 < K)%Z /\ (forall i, (i < length segs)%nat -> inject_Z (ekey i) == inject_Z K * kq i) /\
+    (exists r, closest qpt ekey cpt K q t = Some r) /\
+    forall i k p, closest qpt ekey cpt K q t = Some (i, k, p) ->
+      (i < length segs)%nat /\ p = cpt i /\ forall j, (j < length segs)%nat -> kq i <= kq j.
+Proof.
+  intros boxes cpt kq B.
+  assert (L : length boxes = length segs) by (unfold boxes; apply map_length).
+  rewrite <- L. apply (closest_eq_brute_exact_thm qpt cpt kq q depth boxes t); [| |exact B].
+  - unfold boxes. apply Forall_forall. intros b Hb. apply in_map_iff in Hb. destruct Hb as (s & <- & _). apply seg_box_wf.
+  - intros i Hi. unfold kq, cpt, seg_of, boxes.
+    change zero_pt_box with ((fun s : pt * pt => seg_box (fst s) (snd s)) ((0, 0, 0)%Z, (0, 0, 0)%Z)).
+    rewrite map_nth. apply seg_closest_far.
+Qed.
+Open Scope Z_scope.
